@@ -165,6 +165,18 @@ class SymExp(SymExpBase):
     def __hash__(self):
         return hash((self.c, tuple(sorted(self.terms.items()))))
 
+    def __bool__(self):
+        """Truth value of an exponent (`p1 or p2`, `if p:`): p != 0."""
+        if not self.terms:
+            return self.c != 0
+        s = self.scale()
+        res = bool(s != Sym.const(1))
+        if res:
+            # replayable models: the true exponent is non-zero when the scales are well away from 1
+            from .formula import _lift, Or
+            self.ctx.robust.append(Or.make([_lift(s > 16), _lift(s < Sym.const(1) / 16)]))
+        return res
+
     def __repr__(self):
         return f'SymExp({self.c} + {self.terms})'
 
